@@ -573,3 +573,69 @@ pub fn run_c15e(args: &Args) -> Report {
     rep
 }
 
+/// C14 end to end: how the pass feeds a listening tag (`capture the NEXT directive output`, also when that output
+/// is empty) and substitutes stored tags in the following lines - small sources through `Txtpp::run` vs the model.
+pub fn run_c14e(args: &Args) -> Report {
+    let mut rep = Report::new("C14", "M5-tags", &args.replay_dir);
+    let model = Model::new(&args.model, &args.work);
+    rep.rule = "exhaustive over small sources: `tag T`, then a first output-producing directive in {write with empty argument, include of an empty file, command printing nothing, write x, include of a one-line file, command printing a line}, optionally a second tag U with its own producer, optionally one more producer whose output must stay in place, then use lines in {[T], [T] [U], [U][T], T alone, none}; LF and CRLF; Txtpp::run (build) vs the Lean model: verdict (unused tag = error), output bytes. distinct_nontrivial = cases whose first captured output is empty.".to_string();
+    let mut runner = Runner::new(args, "c14e");
+    let cmds: Vec<(String, Vec<Act>)> = vec![
+        ("true".into(), vec![Act { kind: "true", arg: String::new() }]),
+        ("echo one".into(), vec![Act { kind: "lit", arg: "one\n".into() }]),
+    ];
+    let producers = ["-TXTPP#write", "TXTPP#include empty.txt", "-TXTPP#run true", "-TXTPP#write x", "TXTPP#include one.txt", "-TXTPP#run echo one"];
+    let uses = ["[T]", "[T] [U]", "[U][T]", "T", ""];
+    let mut n = 0usize;
+    let mut nontrivial = 0u64;
+    for crlf in [false, true] {
+        let le = if crlf { "\r\n" } else { "\n" };
+        for (pi, p1) in producers.iter().enumerate() {
+            for second in [None, Some(0usize), Some(3), Some(5)] {
+                for extra in [None, Some(3usize), Some(4)] {
+                    for u in uses {
+                        n += 1;
+                        if n % args.shards.max(1) != args.shard {
+                            continue;
+                        }
+                        let mut lines: Vec<String> = vec!["top".into(), "-TXTPP#tag T".into(), p1.to_string(), "~".into()];
+                        if let Some(k) = second {
+                            lines.push("-TXTPP#tag U".into());
+                            lines.push(producers[k].to_string());
+                            lines.push("~".into());
+                        }
+                        if let Some(k) = extra {
+                            lines.push(producers[k].to_string());
+                            lines.push("~".into());
+                        }
+                        if !u.is_empty() {
+                            lines.push(u.to_string());
+                        }
+                        lines.push("end".into());
+                        let text = lines.join(le) + le;
+                        let p = Project {
+                            files: vec![("a.txt.txtpp".into(), text.clone().into_bytes()), ("empty.txt".into(), vec![]), ("one.txt".into(), b"one\n".to_vec())],
+                            dirs: vec![],
+                            cmds: cmds.clone(),
+                            sources: vec!["a.txt.txtpp".into()],
+                            sig: vec![],
+                            expect_error: false,
+                        };
+                        materialize(&p, &runner.dir);
+                        let mut cfg = RunCfg::build_all();
+                        cfg.threads = 1;
+                        runner.run_here(&cfg, &p.cmds, vec![format!("p{pi}|{:?}|{:?}|{u}|{crlf}", second, extra)], &format!("source {:?}", text));
+                        if pi < 3 {
+                            nontrivial += 1;
+                        }
+                    }
+                }
+            }
+        }
+    }
+    compare_all(&mut rep, &runner, &model, "C14", "C14.capture_next_output, no_capture_without_tag, eof_unused_is_error, inject_spec (tags through the pass)");
+    rep.distinct = Some(nontrivial);
+    runner.cleanup();
+    rep
+}
+
